@@ -10,7 +10,7 @@ NAMES = ['a', 'b']
 # ------------------------------------------------------------------ C04
 def gen_label_body(rng, depth, budget):
     out = []
-    n = rng.randint(1, max(1, min(4, budget[0])))
+    n = rng.randint(0 if depth > 1 else 1, max(1, min(4, budget[0])))   # nested blocks may be empty
     for _ in range(n):
         if budget[0] <= 0:
             break
